@@ -1024,6 +1024,77 @@ impl IoUring {
     }
 }
 
+/// Verification hook: build an `IoUring` over caller-supplied ring memory so that a
+/// simulated kernel can play the other side of the rings.
+/// The caller must `core::mem::forget` the value (its `Drop` unmaps and closes).
+#[cfg(feature = "verif-hooks")]
+#[derive(Debug, Copy, Clone)]
+pub struct VerifRingParts {
+    pub fd: Fd,
+    pub flags: IoUringParamFlags,
+    pub sq_khead: *mut AtomicU32,
+    pub sq_ktail: *mut AtomicU32,
+    pub sq_kflags: *mut AtomicU32,
+    pub sq_kdropped: *mut AtomicU32,
+    pub sq_karray: *mut AtomicU32,
+    pub sq_local_head: u32,
+    pub sq_local_tail: u32,
+    pub sq_ring_mask: u32,
+    pub sq_ring_entries: u32,
+    pub sqes: *mut IoUringSubmissionQueueEntry,
+    pub cq_khead: *mut AtomicU32,
+    pub cq_ktail: *mut AtomicU32,
+    pub cq_koverflow: *mut AtomicU32,
+    pub cq_ring_mask: u32,
+    pub cq_ring_entries: u32,
+    pub cqes: *mut IoUringCompletionQueueEntry,
+}
+
+#[cfg(feature = "verif-hooks")]
+impl IoUring {
+    /// # Safety
+    /// All pointers must be valid for the lifetime of the returned value, which must be
+    /// forgotten rather than dropped.
+    #[must_use]
+    pub unsafe fn verif_from_raw_parts(p: VerifRingParts) -> Self {
+        Self {
+            fd: p.fd,
+            flags: p.flags,
+            submission_queue: UringSubmissionQueue {
+                ring_size: 0,
+                ring_ptr: 0,
+                kernel_head: NonNull::new_unchecked(p.sq_khead),
+                kernel_tail: NonNull::new_unchecked(p.sq_ktail),
+                kernel_flags: NonNull::new_unchecked(p.sq_kflags),
+                kernel_dropped: NonNull::new_unchecked(p.sq_kdropped),
+                kernel_array: NonNull::new_unchecked(p.sq_karray),
+                head: p.sq_local_head,
+                tail: p.sq_local_tail,
+                ring_mask: p.sq_ring_mask,
+                ring_entries: p.sq_ring_entries,
+                entries: NonNull::new_unchecked(p.sqes),
+            },
+            completion_queue: UringCompletionQueue {
+                ring_size: 0,
+                ring_ptr: 0,
+                kernel_head: NonNull::new_unchecked(p.cq_khead),
+                kernel_tail: NonNull::new_unchecked(p.cq_ktail),
+                kernel_flags: None,
+                kernel_overflow: NonNull::new_unchecked(p.cq_koverflow),
+                ring_mask: p.cq_ring_mask,
+                ring_entries: p.cq_ring_entries,
+                entries: NonNull::new_unchecked(p.cqes),
+            },
+        }
+    }
+
+    /// Local (not yet flushed) submission tail and last flushed tail
+    #[must_use]
+    pub fn verif_sq_local(&self) -> (u32, u32) {
+        (self.submission_queue.head, self.submission_queue.tail)
+    }
+}
+
 impl Drop for IoUring {
     #[expect(clippy::let_underscore_untyped)]
     fn drop(&mut self) {
